@@ -15,8 +15,8 @@ func init() {
 	register(&propertyCheck{
 		id: "C07", level: "other", needs: loadNeeds{ssa: true},
 		decides: "for an enumerated set of panic-capable constructs, that none is unguarded in the interpreter packages (tokenizer, compiler, bytecode, data, symbols, builtins, parse, runtime): (1) every single-result type assertion is discharged by a dominating comma-ok assertion or type-switch case of the same value and type, by a same-type-pair contract (bytecode.sameKindOperands on its success edge, the result and model of one data.Coerce, IsType-related values), by the static type, or by a named exception; (2) explicit panics are a frozen, read list; (3) every integer division or remainder has a constant or zero-tested divisor; " +
-			"(4) reflect.Value.Call is reached only through the recover-guarded safeReflectCall; (5) no pointer is tested against nil and dereferenced on a path from the nil edge; (6) every recover() can recover; (7) interface-keyed Go maps are indexed with hashable keys; (8) no method is called on reflect.TypeOf(x) unless x is concrete or was found non-nil; (9) every slice or channel allocation sized by an integer the program chose passes a lower and an upper bound test.",
-		misses: "index and slice bounds with computed indices, nil dereferences without a contradicting test, stack exhaustion by recursion, fatal runtime errors (concurrent map access is C08's), the REPL's terminal layer.",
+			"(4) reflect.Value.Call is reached only through the recover-guarded safeReflectCall; (5) no pointer is tested against nil and dereferenced on a path from the nil edge; (6) every recover() can recover; (7) interface-keyed Go maps are indexed with hashable keys; (8) no method is called on reflect.TypeOf(x) unless x is concrete or was found non-nil; (9) every slice or channel allocation sized by an integer the program chose passes a lower and an upper bound test; (10) constant and end-relative indices and slice bounds sit behind a test that implies the element exists.",
+		misses: "index and slice bounds computed otherwise than as a constant or len(x)-k, nil dereferences without a contradicting test, stack exhaustion by recursion, fatal runtime errors (concurrent map access is C08's), the REPL's terminal layer.",
 		run:    runC07,
 	})
 }
@@ -129,6 +129,169 @@ func c07IsNilPredicate(f *ssa.Function) bool {
 }
 
 var c07SizeOK = map[string]string{}
+
+var c07IndexOK = map[string]string{
+	// instruction operands: written by the compiler, never by the program
+	"bytecode.arrayByteCode|index 0 of value":  "the operand list of an Array instruction is built by the compiler as []any{count, kind} (compiler emits both elements whenever it emits the list form)",
+	"bytecode.arrayByteCode|index 1 of value":  "same two-element operand list of an Array instruction",
+	"bytecode.atLineByteCode|index 0 of value": "the operand list of an AtLine instruction is built by the compiler as []any{line, text}",
+	"bytecode.moduleByteCode|index 0 of value": "the operand list of a Module instruction is built by the compiler as []any{name[, tokenizer]}",
+	"bytecode.getArgumentType|index 0 of field Parameters": "reached only for a variadic declaration, and a variadic declaration has at least the variadic parameter (declarations are Go literals checked when the packages register)",
+	// the compiler's scope stack
+	"compiler.Compiler.DefineGlobalSymbol|index 0 of field scopes":   "preceded by `if len(c.scopes) == 0 { c.PushSymbolScope() }`; PushSymbolScope appends one scope (the effect of the callee on the field is not modelled)",
+	"compiler.Compiler.DefineGlobalSymbol|index 0 of field scopes#2": "same guard",
+	"compiler.Compiler.DefineSymbol|index 0 of field scopes":         "preceded by `if len(c.scopes) == 0 { c.PushSymbolScope() }`",
+	"compiler.Compiler.DefineSymbol|index 0 of field scopes#2":       "same guard",
+	"compiler.Compiler.markSymbolAsUsed|index 0 of field scopes":     "preceded by `if len(c.scopes) == 0 { c.PushSymbolScope() }`",
+	"compiler.Compiler.markSymbolAsUsed|index 0 of field scopes#2":   "same guard",
+	"compiler.Compiler.compileDotReference|index 0 of result of bytecode.ByteCode.Opcodes":   "the last instruction is patched right after this function emitted a Push and compiled an expression atom: the instruction list is not empty",
+	"compiler.Compiler.compileDotReference|index 0 of result of bytecode.ByteCode.Opcodes#2": "same: written back to the element just read",
+	"compiler.Compiler.reference|index 0 of result of bytecode.ByteCode.Opcodes":             "the last instruction is patched right after this function emitted three instructions and parseStruct emitted the Struct instruction",
+	"compiler.Compiler.reference|index 0 of result of bytecode.ByteCode.Opcodes#2":           "same: written back to the element just read",
+	"compiler.Compiler.compilerMacro|index 0 of field Tokens":   "needs a loaded `macros` package whose function returns text without any token; tokenizer.New(text, true) ends every token list with an end-of-statement token, so the list is not empty",
+	"compiler.Compiler.compilerMacro|index 0 of field Tokens#2": "same token list, one line earlier",
+	"compiler.Compiler.testDirective|index 0 of result of tokenizer.Tokenizer.NextText": "NextText returns \"\" only past the last token; tokenizer.New(src, true) ends the list with an end-of-statement token, so a token always follows the directive name (checked: a file that is exactly `@test` names the test \";\")",
+	// names and tables made by Go code
+	"data.Declaration.typeAsString|index 0 of value":        "the receiver type name of a native declaration; names are Go literals of the form pkg.Type",
+	"data.Format|index 0 of result of strings.TrimPrefix":   "a reflect type string without its leading '*' that was just found as a key of packageTypes: never empty",
+	"data.PackageForKind|index 0 of field Tokens":           "TypeDeclarations is a Go table literal; every entry has its tokens",
+	"data.PackageForKind|index 0 of field Tokens#2":         "same table",
+	"data.PackageForKind|index 1 of field Tokens":           "same table: an entry that starts with `*` continues with the package name",
+	"symbols.SymbolTable.GetAddress|index 0 of parameter name": "reached only when name is a key of the symbol map, and symbols are created from identifier tokens, which are never empty",
+	"exec.newCommand|index 0 of result of fork.MungeArguments":   "exec.Command is declared with one fixed parameter before the variadic ones, so the argument list is not empty, and MungeArguments returns its arguments (Linux, macOS) or a longer list (Windows)",
+	"exec.newCommand|index 0 of result of fork.MungeArguments#2": "same list",
+	"reflect.describeBytecodeFunction|index 0 of result of reflect.Value.Call":   "the String method of *bytecode.ByteCode has exactly one result",
+	"reflect.describeBytecodeFunction|index 0 of result of reflect.Value.Call#2": "the Declaration method of *bytecode.ByteCode has exactly one result",
+	"util.formatSymbols|index 2 of value":   "rows come from SymbolTable.FormattedData, which builds every row with the same fixed columns",
+	"util.formatSymbols|index 2 of value#2": "same row",
+	// not the interpreter
+	"debugger.getLine|index 0 of field Tokens":                          "the interactive debugger's prompt (terminal layer, outside this property): the line typed is tokenised with the end-of-statement token appended",
+	"debugger.getLine|index 0 of result of tokenizer.Token.Spelling":    "same prompt; tokens have non-empty spellings",
+	"resolve.walker.popFuncLocals|index 0 of field funcLocals":          "the formatter's resolver, not the interpreter; push and pop are paired by the walker",
+}
+
+// c07CallersGuard: the indexed value is a parameter of an unexported function
+// and every call site passes a value for which the element is known to exist.
+func c07CallersGuard(fn *ssa.Function, s indexSite, callers map[*ssa.Function][]ssa.CallInstruction) (bool, string) {
+	p, ok := resolveLocal(stripValue(s.x)).(*ssa.Parameter)
+	if !ok || fn.Parent() != nil {
+		return false, ""
+	}
+
+	if o, isFunc := fn.Object().(*types.Func); !isFunc || o.Exported() {
+		return false, ""
+	}
+
+	idx := -1
+
+	for i, fp := range fn.Params {
+		if fp == p {
+			idx = i
+		}
+	}
+
+	sites := callers[fn]
+	if idx < 0 || len(sites) == 0 {
+		return false, ""
+	}
+
+	for _, ci := range sites {
+		args := ci.Common().Args
+		if idx >= len(args) {
+			return false, ""
+		}
+
+		if ok, _ := indexSiteGuarded(ci.Parent(), indexSite{ci, args[idx], s.k}); !ok {
+			return false, ""
+		}
+	}
+
+	return true, "every one of the " + sprintInt(len(sites)) + " call sites passes a value known to be long enough"
+}
+
+// c07SliceSites: slice expressions with constant bounds, including
+// s[a : len(s)-b], expressed as "element a+b-1 must exist".
+func c07SliceSites(fn *ssa.Function) []indexSite {
+	var out []indexSite
+
+	allInstrs(fn, func(in ssa.Instruction) {
+		sl, ok := in.(*ssa.Slice)
+		if !ok {
+			return
+		}
+
+		if t, isPtr := sl.X.Type().Underlying().(*types.Pointer); isPtr {
+			if _, isArr := t.Elem().Underlying().(*types.Array); isArr {
+				return
+			}
+		}
+
+		var need int64
+
+		lo := int64(0)
+		if sl.Low != nil {
+			if n, ok := constInt(sl.Low); ok {
+				lo = n
+			}
+		}
+
+		need = lo
+
+		if sl.High != nil {
+			if n, ok := constInt(sl.High); ok {
+				if n > need {
+					need = n
+				}
+			} else if bo, isBin := sl.High.(*ssa.BinOp); isBin && bo.Op == token.SUB {
+				if k, isC := constInt(bo.Y); isC && k > 0 {
+					if l := lenOf(bo.X); l != nil && (l == sl.X || sameSliceValue(l, sl.X)) {
+						need = lo + k
+					}
+				}
+			}
+		}
+
+		if need > 0 {
+			out = append(out, indexSite{in, sl.X, need - 1})
+		}
+	})
+
+	// x[len(x)-k]: element k-1 must exist
+	allInstrs(fn, func(in ssa.Instruction) {
+		var x, idx ssa.Value
+
+		switch v := in.(type) {
+		case *ssa.IndexAddr:
+			x, idx = v.X, v.Index
+		case *ssa.Index:
+			x, idx = v.X, v.Index
+		case *ssa.Lookup:
+			if !isStringType(v.X.Type()) {
+				return
+			}
+
+			x, idx = v.X, v.Index
+		default:
+			return
+		}
+
+		bo, ok := idx.(*ssa.BinOp)
+		if !ok || bo.Op != token.SUB {
+			return
+		}
+
+		k, isC := constInt(bo.Y)
+		if !isC || k <= 0 {
+			return
+		}
+
+		if l := lenOf(bo.X); l != nil && (l == x || sameSliceValue(l, x)) {
+			out = append(out, indexSite{in, x, k - 1})
+		}
+	})
+
+	return out
+}
 
 // c07SizeLeaves returns the run-time integers a size expression is computed
 // from; empty when it is made of constants and lengths only.
@@ -399,6 +562,7 @@ func runC07(w *World, r *Report) {
 	r.Rule("R-C07-7", "a Go map with an interface key type is indexed only with a key of comparable static type, a key obtained by ranging over a map, or behind data.hashableKey(key)", 5)
 	r.Rule("R-C07-8", "a method is called on reflect.TypeOf(x) only where x has a concrete static type or was found non-nil on every path (reflect.TypeOf(nil) is a nil Type)", 10)
 	r.Rule("R-C07-9", "every make of a slice or channel whose size is computed from an integer the running program chose (data.Int of a function argument or a stack value; parameters are followed into their callers, three levels) is reachable only through a lower-bound and an upper-bound comparison of that integer, or sits under a deferred recover", 3)
+	r.Rule("R-C07-10", "a constant index, a constant slice bound, or a slice s[a:len(s)-b] into a slice or string of unknown length is behind a length test (or a prefix/suffix/emptiness test) that implies the element exists", 100)
 	r.Rule("R-C07-6", "every recover() in the repository is called directly by a function that is the target of a defer statement (a recover() in a helper recovers nothing)", 4)
 
 	var fns []*ssa.Function
@@ -716,6 +880,35 @@ func runC07(w *World, r *Report) {
 				}
 			}
 		})
+	}
+
+	// ---- R-C07-10: constant indices and slice bounds
+	r.Unit("runtime_functions_with_declared_argument_count", registerNativeMinArgs(w))
+
+	for _, fn := range fns {
+		count := map[string]int{}
+
+		sites := constIndexSites(fn)
+		sites = append(sites, c07SliceSites(fn)...)
+
+		for _, s := range sites {
+			key := fnKey(fn) + "|index " + sprintInt(int(s.k)) + " of " + c40Describe(resolveLocal(s.x))
+			count[key]++
+
+			if n := count[key]; n > 1 {
+				key += "#" + sprintInt(n)
+			}
+
+			if ok, why := indexSiteGuarded(fn, s); ok {
+				r.Discharge("R-C07-10", key, w.pos(s.instr.Pos()), why)
+			} else if ok, why := c07CallersGuard(fn, s, callers); ok {
+				r.Discharge("R-C07-10", key, w.pos(s.instr.Pos()), why)
+			} else if why, ok := c07IndexOK[key]; ok {
+				r.Except("R-C07-10", key, w.pos(s.instr.Pos()), why)
+			} else {
+				r.Violate("R-C07-10", key, w.pos(s.instr.Pos()), "element "+sprintInt(int(s.k))+" must exist for this index or slice expression, and nothing on the way here implies the value is that long: a shorter one panics the interpreter")
+			}
+		}
 	}
 
 	// ---- R-C07-6: a recover() that can recover
